@@ -1959,6 +1959,23 @@ func r17_3(c *Ctx) {
 				if recoverDisables(h) {
 					// the handler's replayer pointer is this function's replayer pointer parameter and the error pointer is its named result cell
 					good = true
+					for _, a := range df.Call.Args {
+						pt, isPtr := a.Type().Underlying().(*types.Pointer)
+						if !isPtr || !typeIs(pt.Elem(), "sse", "Replayer") {
+							continue
+						}
+						src := sources(a)
+						shared := len(src) > 0
+						for _, sv := range src {
+							if _, isParam := sv.(*ssa.Parameter); !isParam {
+								shared = false
+							}
+						}
+						if !shared {
+							good = false
+							why = "the deferred " + fnLabel(h) + " is handed a replayer variable of its own, not the one this call reads: the panicking replayer is never disabled"
+						}
+					}
 					if !handlersSeen[h] {
 						handlersSeen[h] = true
 						at, what := handlerMayPanic(h)
